@@ -17,7 +17,9 @@ Statements about the executable model: the queue discipline of `Xsm/Model/Engine
 `drainLog` / `asyncLog` list the events a drain dequeues and hands to `on_event_received` +
 `_process_event`, following the recursion of `drainLoop` / `asyncDrain` case by case; `rtc_structure`
 ties that list to the `#recv:` records of the trace the harness compares with the real engines.
-Everything is for every machine, every user-code environment and every state, with no bound.
+Everything is for every machine, every user-code environment and every state, with no bound. (`drainLoop`
+and its twins take a MODEL fuel and the loop's counter `chained` of marked dequeues; `drainFlagged` runs them
+with `drainFuel` and `0`. The fuel never runs out: `C13.sync_drain_terminates`.)
 
 PROVED (model, all inputs):
 * `send_appends_at_tail`, `drain_pops_head`, `async_loop_pops_head` — the queue is FIFO at both ends;
@@ -27,24 +29,29 @@ PROVED (model, all inputs):
 * `raised_after_current` — whatever a macrostep raises is appended BEHIND everything already queued;
 * `rtc_structure` — what a drain writes to the trace is, per dequeued event and in dequeue order,
   `#recv:e` followed by records of e's own transitions / eventless follow-ups only: macrosteps are never
-  interleaved, each event is settled before the next is dequeued (unconditional: also when the budget
+  interleaved, each event is settled before the next is dequeued (unconditional: also when the bound
   cuts, a macrostep raises, or the machine completes);
 * `fifo_exactly_once_clean` (sync), `fifo_exactly_once_async_clean`, `fifo_exactly_once_queued` — when nothing cuts
-  the drain short (`DrainClean` / `AsyncClean`: the bound `maxIterations` is not reached, the machine
+  the drain short (`DrainClean` / `AsyncClean`: the bound `maxIterations` never trips, the machine
   keeps running, sync: no macrostep raises an error; these are the side conditions C13 / C10 / C07 govern)
   the events received are EXACTLY the accepted ones, in order, each once, followed by the raised events
   in raise order, and nothing is left queued;
-* sync, events QUEUED WHEN A DRAIN STARTS (accepted from outside by `send` / `send_events`, or left over by a
-  call that raised), with NO side condition on the bound (repairs F10: `drainBudget` — the budget of one
-  drain is `maxIterations` + the number of events queued when it starts, so those never count):
-  `sync_external_never_dropped` — the first events a drain receives ARE those events, in order, none
-  skipped, none twice; a drain that returns "running" without raising has received them ALL; a drain that
-  raises (a failing macrostep aborts the sync drain) leaves the ones not yet received queued, in order, at
-  the head of the queue; `external_exactly_once_sync` — the same for `_process_event_queue` itself
-  (`drainFlagged`), and what a cut discards was enqueued WHILE draining; `fifo_exactly_once` — a burst
-  `send_events(es)` of ANY length to an idle running interpreter: every event of `es` is received exactly
-  once, in order, when the call returns with the interpreter still "running" (in general a prefix of `es`
-  is: the rest is still queued if the call raised, dropped by the status gate if the machine completed);
+* sync, EXTERNAL events (accepted from outside by `send` / `send_events`: queued unmarked), with NO side
+  condition on the bound (repairs F10, second repair: the bound of `_process_event_queue` counts only the
+  dequeues of MARKED events — those enqueued while a drain was in flight, `QEv.self` — and a cut purges
+  marked entries only and goes on; the same policy as the async chain breaker):
+  `sync_external_never_dropped` — external events at the head of the queue when a drain starts are the first
+  events it receives, in order, none skipped, none twice; a drain that returns "running" without raising
+  has received them ALL; a drain that raises (a failing macrostep aborts the sync drain) leaves the ones
+  not yet received queued, in order, at the head of the queue; `external_exactly_once_sync` — for
+  `_process_event_queue` itself (`drainFlagged`) and ANY queue — marked leftovers of an aborted drain in front
+  of, or between, the external events included: the external events received, followed by those still
+  queued, are an initial segment of the external events queued at the start, ALL of them when the
+  interpreter is still "running" afterwards; `sync_cut_discards_only_raised` — the cut keeps every external
+  entry, in order, and removes exactly the marked ones; `fifo_exactly_once` — a burst `send_events(es)` of
+  ANY length to an idle running interpreter: every event of `es` is received exactly once, in order, when
+  the call returns with the interpreter still "running" (in general a prefix of `es` is: the rest is still
+  queued if the call raised, dropped by the status gate if the machine completed);
 * async, EXTERNAL events, with NO side condition on the bound (repairs F30): `async_external_never_dropped`
   — an external event the run loop dequeues is always processed (`#recv:` written, macrostep run), chain
   breaker tripped or not; `external_exactly_once_async` — for every fuel, counter and machine the external
@@ -59,7 +66,7 @@ PROVED (model, all inputs):
 * `send_is_sendMany_singleton`, `sync_sendMany_is_one_drain`, and by example `sendMany_differs_from_sends`:
   `send_events([a, b])` queues both and drains once, so what `a` raises runs AFTER `b`, whereas
   `send(a); send(b)` runs it before `b` (both engines at the model's quiescent observation points);
-* the former counterexamples are gone: `sync_burst_over_bound_loses_events` (F10: the sync drain budget
+* the former counterexamples are gone: `sync_burst_over_bound_loses_events` (F10: the sync drain bound
   counted every dequeued event, so of a burst longer than `maxIterations` only `maxIterations` events were
   received and the rest discarded) is replaced by `sync_external_never_dropped` /
   `external_exactly_once_sync` / `sync_cut_discards_only_raised`, the old witness run now showing all three
@@ -102,7 +109,7 @@ theorem send_appends_at_tail (es : List Ev) (s : St) :
 
 theorem sync_sendMany_is_one_drain (m : Machine) (u : UEnv) (es : List Ev) (l : LSt) (h : l.st.status = "running") :
     opSendMany .sync m u es l =
-      { l with st := drainLoop m u (drainBudget m (pushAll es l.st)) (pushAll es l.st) } := by
+      { l with st := drainLoop m u (drainFuel m (pushAll es l.st)) 0 (pushAll es l.st) } := by
   have hg : ¬ refuses (sendGate .sync) l.st.status = true := by
     intro hh; exact (syncSendGate_spec _).1 hh h
   unfold opSendMany
@@ -133,17 +140,18 @@ theorem opSend_sync_is_engine_send (m : Machine) (u : UEnv) (e : Ev) (l : LSt) :
   · have hg : refuses (sendGate .sync) l.st.status = true := (syncSendGate_spec _).2 h
     rw [if_pos hg, if_neg h]
 
-/-- the sync drain dequeues the HEAD, runs ONE macrostep (`syncMacro`: `_process_event` then
-    `_process_transient_transitions`) on the rest, and only then looks at the queue again -/
-theorem drain_pops_head (m : Machine) (u : UEnv) (budget : Nat) (s : St) (q : QEv) (rest : List QEv)
-    (hq : s.queue = q :: rest) (hrun : s.status = "running") :
-    drainLoop m u (budget + 1) s =
+/-- the sync drain dequeues the HEAD (unless it is a marked event that trips the runaway bound, §5), runs ONE
+    macrostep (`syncMacro`: `_process_event` then `_process_transient_transitions`) on the rest, and only then
+    looks at the queue again; the counter `chained` goes up iff the head was marked -/
+theorem drain_pops_head (m : Machine) (u : UEnv) (fuel c : Nat) (s : St) (q : QEv) (rest : List QEv)
+    (hq : s.queue = q :: rest) (hrun : s.status = "running") (ht : syncTrips m c q = false) :
+    drainLoop m u (fuel + 1) c s =
       (if (syncMacro m u q.ev { s with queue := rest }).err.isSome = true then syncMacro m u q.ev { s with queue := rest }
-       else drainLoop m u budget (syncMacro m u q.ev { s with queue := rest })) ∧
-    drainLog m u (budget + 1) s =
+       else drainLoop m u fuel (chainedNext c q) (syncMacro m u q.ev { s with queue := rest })) ∧
+    drainLog m u (fuel + 1) c s =
       q.ev :: (if (syncMacro m u q.ev { s with queue := rest }).err.isSome = true then []
-               else drainLog m u budget (syncMacro m u q.ev { s with queue := rest })) :=
-  ⟨drainLoop_cons m u budget s q rest hq hrun, drainLog_cons m u budget s q rest hq hrun⟩
+               else drainLog m u fuel (chainedNext c q) (syncMacro m u q.ev { s with queue := rest })) :=
+  ⟨drainLoop_cons m u fuel c s q rest hq hrun ht, drainLog_cons m u fuel c s q rest hq hrun ht⟩
 
 /-- the async run loop likewise: one `asyncStep` (process + settle) per dequeued event -/
 theorem async_loop_pops_head (m : Machine) (u : UEnv) (fuel : Nat) (s : St) (q : QEv) (rest : List QEv)
@@ -158,17 +166,17 @@ theorem async_loop_pops_head (m : Machine) (u : UEnv) (fuel : Nat) (s : St) (q :
     and `done.state.*` go through `Queue.put`) ONLY enqueues — configuration, history, context, trace,
     status, error flag are untouched, nothing is processed -/
 theorem send_during_processing_only_enqueues (u : UEnv) (m : Machine) (e : Ev) (s : St) :
-    -- sync, every phase (start included)
-    (hooksFlagged u m).sndRaise e s = (if s.status = "running" then { s with queue := s.queue ++ [⟨e, false⟩] } else s) ∧
+    -- sync, every phase (start included): the queued entry is MARKED (`_raised_in_drain`)
+    (hooksFlagged u m).sndRaise e s = (if s.status = "running" then { s with queue := s.queue ++ [⟨e, true⟩] } else s) ∧
     (hooksFlagged u m).snd e s = (hooksFlagged u m).sndRaise e s ∧
     -- async, inside the run loop: also counts towards the chain breaker and is marked self-raised
     (hooksAsync u m).sndRaise e s =
       (if s.status = "running" then { s with raiseDepth := s.raiseDepth + 1, queue := s.queue ++ [⟨e, true⟩] }
        else { s with raiseDepth := s.raiseDepth + 1 }) ∧
     (hooksAsync u m).snd e s = (hooksAsync u m).sndRaise e s ∧
-    -- async, during `start()`
-    (hooksAsyncStart u m).sndRaise e s = (hooksFlagged u m).sndRaise e s ∧
-    (hooksAsyncStart u m).snd e s = (hooksFlagged u m).sndRaise e s :=
+    -- async, during `start()`: no loop yet, nothing is counted or marked
+    (hooksAsyncStart u m).sndRaise e s = (if s.status = "running" then { s with queue := s.queue ++ [⟨e, false⟩] } else s) ∧
+    (hooksAsyncStart u m).snd e s = (hooksAsyncStart u m).sndRaise e s :=
   ⟨rfl, rfl, rfl, rfl, rfl, rfl⟩
 
 /-- *"Events that actions raise … are handled after the current event"*: whatever the macrostep of `e`
@@ -179,17 +187,23 @@ theorem raised_after_current (m : Machine) (u : UEnv) (e : Ev) (q : QEv) (s : St
     (¬ s.raiseDepth > m.maxIterations → (asyncStep m u q s).queue = s.queue ++ asyncRaisedBy m u q s) :=
   ⟨syncMacro_queue m u e s, asyncStep_queue_eq m u q s⟩
 
+/-- … and on the sync engine every one of them is MARKED: a macrostep never adds an external entry -/
+theorem raised_are_marked (m : Machine) (u : UEnv) (e : Ev) (s : St) : ∀ q ∈ raisedBy m u e s, q.self = true := by
+  obtain ⟨added, hq, hm⟩ := Term.syncMacro_marked m u e s
+  have : raisedBy m u e s = added := by unfold raisedBy; rw [hq]; simp
+  rw [this]; exact hm
+
 /-! ## 3. run to completion: what a drain writes -/
 
 /-- **a drain's contribution to the trace is the concatenation, per dequeued event and in dequeue order,
     of `#recv:e` followed by the records of e's own macrostep** — records of transitions taken for `e`
     (`TransRec e.type`) or of eventless follow-ups (`TransRec ""`), nothing else; and the dequeued events
     are exactly `drainLog`. Unconditional. -/
-theorem rtc_structure (m : Machine) (u : UEnv) (budget : Nat) (s : St) :
-    (drainLoop m u budget s).chron = s.chron ++ (drainSegs m u budget s).flatMap segRecords ∧
-    (drainSegs m u budget s).map (·.1) = drainLog m u budget s ∧
-    (∀ p ∈ drainSegs m u budget s, ∀ r ∈ p.2, TransRec p.1.type r ∨ TransRec "" r) :=
-  ⟨drain_chron m u budget s, drainSegs_events m u budget s, drainSegs_records m u budget s⟩
+theorem rtc_structure (m : Machine) (u : UEnv) (fuel c : Nat) (s : St) :
+    (drainLoop m u fuel c s).chron = s.chron ++ (drainSegs m u fuel c s).flatMap segRecords ∧
+    (drainSegs m u fuel c s).map (·.1) = drainLog m u fuel c s ∧
+    (∀ p ∈ drainSegs m u fuel c s, ∀ r ∈ p.2, TransRec p.1.type r ∨ TransRec "" r) :=
+  ⟨drain_chron m u fuel c s, drainSegs_events m u fuel c s, drainSegs_records m u fuel c s⟩
 
 /-- one macrostep in the trace: its `#recv` record first, then only its own records -/
 theorem macrostep_writes (m : Machine) (u : UEnv) (e : Ev) (s : St) :
@@ -199,64 +213,52 @@ theorem macrostep_writes (m : Machine) (u : UEnv) (e : Ev) (s : St) :
 
 /-! ## 4. lossless, ordered, exactly once -/
 
-theorem drain_clean_queue_nil (m : Machine) (u : UEnv) : ∀ (budget : Nat) (s : St), DrainClean m u budget s →
-    (drainLoop m u budget s).queue = [] := by
-  intro budget
-  induction budget with
-  | zero =>
-    intro s h
-    simp only [DrainClean] at h
-    rw [drainLoop_zero]; simp [h]
-  | succ n ih =>
-    intro s h
-    cases hq : s.queue with
-    | nil => rw [drainLoop_nil m u n s hq]; exact hq
-    | cons q rest =>
-      obtain ⟨hrun, herr, hc⟩ := (DrainClean_cons m u n s q rest hq).1 h
-      have hns : ¬ (syncMacro m u q.ev { s with queue := rest }).err.isSome = true := by rw [herr]; simp
-      rw [drainLoop_cons m u n s q rest hq hrun, if_neg hns]
-      exact ih _ hc
+theorem drain_clean_queue_nil (m : Machine) (u : UEnv) (fuel c : Nat) (s : St) (h : DrainClean m u fuel c s) :
+    (drainLoop m u fuel c s).queue = [] := (drainClean_not_cut m u fuel c s h).2
 
 /-- **FIFO, exactly once, general form** (sync): whatever is queued when a drain starts — events accepted
-    by this call and, after a call that raised, events accepted earlier — is received in queue order, each
-    once, then the raised events in raise order; nothing is left -/
-theorem fifo_exactly_once_queued (m : Machine) (u : UEnv) (budget : Nat) (s : St) (h : DrainClean m u budget s) :
-    drainLog m u budget s = s.queue.map (·.ev) ++ drainRaised m u budget s ∧
-    (drainLoop m u budget s).queue = [] :=
-  ⟨drain_fifo m u budget s h, drain_clean_queue_nil m u budget s h⟩
+    by this call and, after a call that raised, events accepted or raised earlier — is received in queue
+    order, each once, then the raised events in raise order; nothing is left -/
+theorem fifo_exactly_once_queued (m : Machine) (u : UEnv) (fuel c : Nat) (s : St) (h : DrainClean m u fuel c s) :
+    drainLog m u fuel c s = s.queue.map (·.ev) ++ drainRaised m u fuel c s ∧
+    (drainLoop m u fuel c s).queue = [] :=
+  ⟨drain_fifo m u fuel c s h, drain_clean_queue_nil m u fuel c s h⟩
 
-/-- the budget of one `_process_event_queue()`: `limit + len(self._event_queue)`, computed when the drain
-    starts — AFTER `send()` / `send_events()` appended what they accepted -/
-theorem sync_budget_counts_only_new (m : Machine) (u : UEnv) (s : St) :
-    drainFlagged m u s = drainLoop m u (m.maxIterations + s.queue.length) s ∧
-    drainBudget m s = m.maxIterations + s.queue.length := ⟨rfl, rfl⟩
+/-- the bound of one `_process_event_queue()` counts the dequeues of MARKED events only: an EXTERNAL event at
+    the head never trips it and leaves the counter `chained` as it is — however large the counter, however
+    many events were received before (`send()` / `send_events()` enqueue external events unmarked:
+    `send_appends_at_tail`) -/
+theorem sync_bound_counts_only_marked (m : Machine) (u : UEnv) (s : St) (c : Nat) (q : QEv) (hq : q.self = false) :
+    drainFlagged m u s = drainLoop m u (drainFuel m s) 0 s ∧
+    syncTrips m c q = false ∧ chainedNext c q = c :=
+  ⟨rfl, Term.syncTrips_ext m c hq, Term.chainedNext_ext c hq⟩
 
 /-- **FIFO, exactly once, everything** (sync `send_events(es)` / `send(e)` on an idle running interpreter,
     nothing cuts the drain short): the events received by this call are `es` — all of them, in order, each
     once — followed by what their macrosteps raised; the trace shows exactly these macrosteps, one after
     the other; nothing is left queued -/
 theorem fifo_exactly_once_clean (m : Machine) (u : UEnv) (es : List Ev) (l : LSt) (hrun : l.st.status = "running")
-    (hq : l.st.queue = []) (hclean : DrainClean m u (drainBudget m (pushAll es l.st)) (pushAll es l.st)) :
-    drainLog m u (drainBudget m (pushAll es l.st)) (pushAll es l.st) =
-      es ++ drainRaised m u (drainBudget m (pushAll es l.st)) (pushAll es l.st) ∧
+    (hq : l.st.queue = []) (hclean : DrainClean m u (drainFuel m (pushAll es l.st)) 0 (pushAll es l.st)) :
+    drainLog m u (drainFuel m (pushAll es l.st)) 0 (pushAll es l.st) =
+      es ++ drainRaised m u (drainFuel m (pushAll es l.st)) 0 (pushAll es l.st) ∧
     (opSendMany .sync m u es l).st.chron =
-      l.st.chron ++ (drainSegs m u (drainBudget m (pushAll es l.st)) (pushAll es l.st)).flatMap segRecords ∧
-    (drainSegs m u (drainBudget m (pushAll es l.st)) (pushAll es l.st)).map (·.1) =
-      es ++ drainRaised m u (drainBudget m (pushAll es l.st)) (pushAll es l.st) ∧
+      l.st.chron ++ (drainSegs m u (drainFuel m (pushAll es l.st)) 0 (pushAll es l.st)).flatMap segRecords ∧
+    (drainSegs m u (drainFuel m (pushAll es l.st)) 0 (pushAll es l.st)).map (·.1) =
+      es ++ drainRaised m u (drainFuel m (pushAll es l.st)) 0 (pushAll es l.st) ∧
     (opSendMany .sync m u es l).st.queue = [] := by
-  have hlog := drain_fifo m u _ _ hclean
+  have hlog := drain_fifo m u _ _ _ hclean
   have hqq : (pushAll es l.st).queue.map (·.ev) = es := by
     simp [pushAll, hq, List.map_map, Function.comp_def]
   rw [hqq] at hlog
   rw [sync_sendMany_is_one_drain m u es l hrun]
-  refine ⟨hlog, ?_, ?_, drain_clean_queue_nil m u _ _ hclean⟩
-  · exact drain_chron m u _ _
+  refine ⟨hlog, ?_, ?_, drain_clean_queue_nil m u _ _ _ hclean⟩
+  · exact drain_chron m u _ _ _
   · rw [drainSegs_events]; exact hlog
 
-/-- **the events queued when a sync drain starts are never dropped by the bound** (repairs F10; the sync
-    counterpart of `async_external_never_dropped`). `init` — a prefix of the queue: the events queued when
-    the drain started, `more` whatever was enqueued since — and a budget that covers `init` (the code's
-    budget, `drainBudget`, is `maxIterations` + the length of the WHOLE queue at the start). Then
+/-- **external events at the head of the queue when a sync drain starts are never dropped by the bound**
+    (repairs F10; the sync counterpart of `async_external_never_dropped`). `init` — a prefix of the queue
+    consisting of EXTERNAL events (what `send` / `send_events` accepted: unmarked) —, `more` whatever is queued
+    behind, and a model fuel that covers `init`. Then
     1. the first events the drain receives (hands to `on_event_received` / `_process_event`, `drainLog`) are
        the events of `init`, in queue order, none skipped, none twice — as many as it receives at all;
     2. if the drain returns with the interpreter still "running" and raised nothing, it received ALL of `init`;
@@ -265,56 +267,63 @@ theorem fifo_exactly_once_clean (m : Machine) (u : UEnv) (es : List Ev) (l : LSt
        processes them first.
     The one remaining way out is the status gate: the machine completed or was stopped (C10), and the drain
     drops what is queued exactly as `send()` drops later events. No hypothesis on the machine, on user code,
-    on how many events there are, or on what they raise. -/
-theorem sync_external_never_dropped (m : Machine) (u : UEnv) (init more : List QEv) (budget : Nat) (s : St)
-    (hq : s.queue = init ++ more) (hB : init.length ≤ budget) :
-    (drainLog m u budget s).take init.length = (init.map (·.ev)).take (drainLog m u budget s).length ∧
-    ((drainLoop m u budget s).err = none → (drainLoop m u budget s).status = "running" →
-      (drainLog m u budget s).take init.length = init.map (·.ev)) ∧
-    (s.status = "running" → (drainLoop m u budget s).err ≠ none →
-      init.drop (drainLog m u budget s).length <+: (drainLoop m u budget s).queue) := by
-  obtain ⟨h1, h2, h3⟩ := drain_initial m u init budget s more hq hB
+    on how many events there are, on the counter `c`, or on what the events raise. (For external events that
+    are NOT at the head — marked leftovers of an aborted drain queued in front of them — see
+    `external_exactly_once_sync`.) -/
+theorem sync_external_never_dropped (m : Machine) (u : UEnv) (init more : List QEv) (fuel c : Nat) (s : St)
+    (hq : s.queue = init ++ more) (hext : ∀ q ∈ init, q.self = false) (hB : init.length ≤ fuel) :
+    (drainLog m u fuel c s).take init.length = (init.map (·.ev)).take (drainLog m u fuel c s).length ∧
+    ((drainLoop m u fuel c s).err = none → (drainLoop m u fuel c s).status = "running" →
+      (drainLog m u fuel c s).take init.length = init.map (·.ev)) ∧
+    (s.status = "running" → (drainLoop m u fuel c s).err ≠ none →
+      init.drop (drainLog m u fuel c s).length <+: (drainLoop m u fuel c s).queue) := by
+  obtain ⟨h1, h2, h3⟩ := drain_initial m u init fuel c s more hq hext hB
   refine ⟨h1, fun he hr => ?_, h3⟩
   rw [h1, List.take_of_length_le]
   rw [List.length_map]; exact h2 he hr
 
-/-- **events queued when `_process_event_queue()` starts: exactly once, in order — for every machine, user
-    code and queue length** (the sync counterpart of `external_exactly_once_async`). For the drain the code
-    runs (`drainFlagged`: budget `maxIterations` + queue length): the received events begin with the queued
-    ones, in order (1); all of them are received, and nothing is left queued, when the drain returns
-    "running" without raising (2); after a drain that raised the rest is still queued, in order, at the
-    head (3); and a drain that was CUT (budget exhausted with events still queued) had received everything
-    that was queued at its start plus `maxIterations` more — what the cut discards was enqueued while
-    draining (4). -/
+/-- **external events: exactly once, in order — for every machine, user code and queue** (the sync
+    counterpart of `external_exactly_once_async`), for the drain the code runs (`drainFlagged`:
+    `_process_event_queue()` with `chained = 0`) from ANY state — in particular with MARKED leftovers of a
+    drain that raised queued in front of, or between, the external events. `drainLogQ`: the entries received,
+    with their mark; `Term.extOf`: the external ones among them, in order.
+    1. the external events received, followed by the external events still queued when the drain returns,
+       are an initial segment of the external events that were queued when it started: none skipped, none
+       duplicated, none reordered — by the bound, by a cut, by a failing macrostep;
+    2. they are ALL of them if the interpreter is still "running" then (otherwise the machine completed or was
+       stopped — the status gate dropped the rest, C10);
+    3. if moreover the drain raised nothing, every external event was received and nothing is left queued. -/
 theorem external_exactly_once_sync (m : Machine) (u : UEnv) (s : St) :
-    (drainLog m u (drainBudget m s) s).take s.queue.length =
-      (s.queue.map (·.ev)).take (drainLog m u (drainBudget m s) s).length ∧
+    (Term.extOf (drainLogQ m u (drainFuel m s) 0 s) ++ Term.extOf (drainFlagged m u s).queue <+: Term.extOf s.queue) ∧
+    ((drainFlagged m u s).status = "running" →
+      Term.extOf (drainLogQ m u (drainFuel m s) 0 s) ++ Term.extOf (drainFlagged m u s).queue = Term.extOf s.queue) ∧
     ((drainFlagged m u s).err = none → (drainFlagged m u s).status = "running" →
-      (drainLog m u (drainBudget m s) s).take s.queue.length = s.queue.map (·.ev) ∧ (drainFlagged m u s).queue = []) ∧
-    (s.status = "running" → (drainFlagged m u s).err ≠ none →
-      s.queue.drop (drainLog m u (drainBudget m s) s).length <+: (drainFlagged m u s).queue) ∧
-    (Term.drainCut m u (drainBudget m s) s = true →
-      (drainLog m u (drainBudget m s) s).length = m.maxIterations + s.queue.length ∧
-      (drainLog m u (drainBudget m s) s).take s.queue.length = s.queue.map (·.ev)) := by
-  have hB : s.queue.length ≤ drainBudget m s := by unfold drainBudget; omega
-  obtain ⟨h1, h2, h3⟩ := sync_external_never_dropped m u s.queue [] (drainBudget m s) s (by simp) hB
-  refine ⟨h1, fun he hr => ⟨h2 he hr, drainLoop_queue_nil m u _ _ he⟩, h3, fun hc => ?_⟩
-  have hl := drainCut_steps m u _ s hc
-  refine ⟨hl, ?_⟩
-  rw [h1, List.take_of_length_le]
-  rw [List.length_map, hl]; exact hB
+      Term.extOf (drainLogQ m u (drainFuel m s) 0 s) = Term.extOf s.queue ∧ (drainFlagged m u s).queue = []) := by
+  have h1 := Term.drain_external_prefix m u (drainFuel m s) 0 s
+  have h2 := Term.drain_external_split m u (drainFuel m s) 0 s (Term.drain_no_hang m u s _ (Nat.le_refl _))
+  refine ⟨h1, h2, fun he hr => ?_⟩
+  have hnil : (drainFlagged m u s).queue = [] := drainLoop_queue_nil m u _ _ _ he
+  have := h2 hr
+  have hnil' : (drainLoop m u (drainFuel m s) 0 s).queue = [] := hnil
+  rw [hnil'] at this
+  exact ⟨by simpa [Term.extOf] using this, hnil⟩
 
-/-- **what a cut of the sync drain discards was enqueued while draining**: a drain is cut only if its
-    macrosteps enqueued MORE than `maxIterations` events (`drainRaised`: what the macrosteps of this drain
-    append to the queue) — the events queued at its start do not count -/
-theorem sync_cut_discards_only_raised (m : Machine) (u : UEnv) (s : St)
-    (hc : Term.drainCut m u (drainBudget m s) s = true) :
-    m.maxIterations < (drainRaised m u (drainBudget m s) s).length := by
-  by_cases h : m.maxIterations < (drainRaised m u (drainBudget m s) s).length
-  · exact h
-  · have hb : drainBudget m s = m.maxIterations + s.queue.length := rfl
-    rw [drainCut_false_of_raised m u _ s (by omega)] at hc
-    exact absurd hc (by simp)
+/-- **what a cut of the sync drain discards was enqueued while a drain was in flight** — literally: when the
+    head of the queue is a marked event that trips the bound (`syncTrips`: it is the `maxIterations + 1`-st
+    marked event dequeued since the counter was last at 0) the loop goes on from `syncPurge s`, in which
+    every EXTERNAL entry of the queue is still queued, in order (leftovers of an aborted drain may have been
+    queued in front of them: they are marked, and go), nothing marked is left, and nothing else changed;
+    nothing is received in that iteration. -/
+theorem sync_cut_discards_only_raised (m : Machine) (u : UEnv) (fuel c : Nat) (s : St) (q : QEv) (rest : List QEv)
+    (hq : s.queue = q :: rest) (hrun : s.status = "running") (ht : syncTrips m c q = true) :
+    drainLoop m u (fuel + 1) c s = drainLoop m u fuel 0 (syncPurge s) ∧
+    drainLogQ m u (fuel + 1) c s = drainLogQ m u fuel 0 (syncPurge s) ∧
+    (syncPurge s).queue = Term.extOf s.queue ∧
+    (∀ x ∈ (syncPurge s).queue, x.self = false) ∧
+    syncPurge s = { s with queue := s.queue.filter (fun x => !x.self) } ∧
+    q.self = true :=
+  ⟨drainLoop_trip m u fuel c s q rest hq hrun ht, Term.drainLogQ_trip m u fuel c s q rest hq hrun ht, rfl,
+   Term.syncPurge_all_ext s, rfl, ((Term.syncTrips_eq_true m c q).1 ht).1⟩
 
 /-- **FIFO, exactly once** (sync `send_events(es)` / `send(e)` on an idle running interpreter; NO hypothesis
     on the bound, on the length of `es` or on what the events raise — the sync counterpart of
@@ -326,26 +335,37 @@ theorem sync_cut_discards_only_raised (m : Machine) (u : UEnv) (s : St)
     shows exactly the macrosteps of the received events, one after the other. -/
 theorem fifo_exactly_once (m : Machine) (u : UEnv) (es : List Ev) (l : LSt) (hrun : l.st.status = "running")
     (hq : l.st.queue = []) :
-    (drainLog m u (drainBudget m (pushAll es l.st)) (pushAll es l.st)).take es.length =
-      es.take (drainLog m u (drainBudget m (pushAll es l.st)) (pushAll es l.st)).length ∧
+    (drainLog m u (drainFuel m (pushAll es l.st)) 0 (pushAll es l.st)).take es.length =
+      es.take (drainLog m u (drainFuel m (pushAll es l.st)) 0 (pushAll es l.st)).length ∧
     ((opSendMany .sync m u es l).st.err = none → (opSendMany .sync m u es l).st.status = "running" →
-      (drainLog m u (drainBudget m (pushAll es l.st)) (pushAll es l.st)).take es.length = es ∧
+      (drainLog m u (drainFuel m (pushAll es l.st)) 0 (pushAll es l.st)).take es.length = es ∧
       (opSendMany .sync m u es l).st.queue = []) ∧
     ((opSendMany .sync m u es l).st.err ≠ none →
-      (es.drop (drainLog m u (drainBudget m (pushAll es l.st)) (pushAll es l.st)).length).map
+      (es.drop (drainLog m u (drainFuel m (pushAll es l.st)) 0 (pushAll es l.st)).length).map
         (fun e => (⟨e, false⟩ : QEv)) <+: (opSendMany .sync m u es l).st.queue) ∧
     (opSendMany .sync m u es l).st.chron =
-      l.st.chron ++ (drainSegs m u (drainBudget m (pushAll es l.st)) (pushAll es l.st)).flatMap segRecords ∧
-    (drainSegs m u (drainBudget m (pushAll es l.st)) (pushAll es l.st)).map (·.1) =
-      drainLog m u (drainBudget m (pushAll es l.st)) (pushAll es l.st) := by
+      l.st.chron ++ (drainSegs m u (drainFuel m (pushAll es l.st)) 0 (pushAll es l.st)).flatMap segRecords ∧
+    (drainSegs m u (drainFuel m (pushAll es l.st)) 0 (pushAll es l.st)).map (·.1) =
+      drainLog m u (drainFuel m (pushAll es l.st)) 0 (pushAll es l.st) := by
   have hqq : (pushAll es l.st).queue = es.map (fun e => (⟨e, false⟩ : QEv)) := by simp [pushAll, hq]
   have hev : (pushAll es l.st).queue.map (·.ev) = es := by
     rw [hqq]; simp [List.map_map, Function.comp_def]
   have hlen : (pushAll es l.st).queue.length = es.length := by rw [hqq]; simp
-  obtain ⟨h1, h2, h3, _⟩ := external_exactly_once_sync m u (pushAll es l.st)
+  have hext : ∀ q ∈ (pushAll es l.st).queue, q.self = false := by
+    intro q hmem; rw [hqq] at hmem
+    obtain ⟨e, _, rfl⟩ := List.mem_map.1 hmem
+    rfl
+  have hB : (pushAll es l.st).queue.length ≤ drainFuel m (pushAll es l.st) := by
+    have hc : Term.cntExt (pushAll es l.st).queue = (pushAll es l.st).queue.length := (Term.cntSelf_all_false hext).2
+    unfold drainFuel
+    rw [Term.extCount_eq_cntExt, hc, Nat.add_mul, Nat.one_mul, Nat.mul_add]
+    omega
+  obtain ⟨h1, h2, h3⟩ := sync_external_never_dropped m u (pushAll es l.st).queue [] (drainFuel m (pushAll es l.st)) 0
+    (pushAll es l.st) (by simp) hext hB
   rw [hev, hlen] at h1 h2
   rw [sync_sendMany_is_one_drain m u es l hrun]
-  refine ⟨h1, h2, fun he => ?_, drain_chron m u _ _, drainSegs_events m u _ _⟩
+  refine ⟨h1, fun he hr => ⟨h2 he hr, drainLoop_queue_nil m u _ _ _ he⟩, fun he => ?_, drain_chron m u _ _ _,
+    drainSegs_events m u _ _ _⟩
   have := h3 hrun he
   rw [hqq, ← List.map_drop] at this
   exact this
@@ -515,29 +535,30 @@ open Ex
 
 /-- the former F10 witness (replay `findings/F10_sync_burst_over_bound.json`), REPAIRED outcome: three `B`s,
     bound 2 — all three are received (before the repair: two, the third was gone); the interpreter is
-    running with an empty queue and no error. The budget of this drain is 2 + 3. -/
+    running with an empty queue and no error. External events do not count towards the bound; the MODEL's fuel
+    for this drain is (3 + 1) * (2 + 2). -/
 example : (tr0 (opSendMany .sync burstM exB [.user "B", .user "B", .user "B"] (started .sync burstM)),
      (opSendMany .sync burstM exB [.user "B", .user "B", .user "B"] (started .sync burstM)).st.queue.length,
      (opSendMany .sync burstM exB [.user "B", .user "B", .user "B"] (started .sync burstM)).st.status,
      (opSendMany .sync burstM exB [.user "B", .user "B", .user "B"] (started .sync burstM)).st.err.isSome) =
       (["#recv:B", "tB@B", "#t:m,m.a", "#recv:B", "tB@B", "#t:m,m.a", "#recv:B", "tB@B", "#t:m,m.a"],
        0, "running", false) := by decide
-example : drainBudget burstM (pushAll [.user "B", .user "B", .user "B"] (started .sync burstM).st) = 5 := by decide
+example : drainFuel burstM (pushAll [.user "B", .user "B", .user "B"] (started .sync burstM).st) = 16 := by decide
 /-- … `fifo_exactly_once` at work on it: all three accepted events received, in order, nothing cut -/
-example : (drainLog burstM exB (drainBudget burstM (pushAll [.user "B", .user "B", .user "B"] (started .sync burstM).st))
+example : (drainLog burstM exB (drainFuel burstM (pushAll [.user "B", .user "B", .user "B"] (started .sync burstM).st)) 0
       (pushAll [.user "B", .user "B", .user "B"] (started .sync burstM).st),
-    Term.drainCut burstM exB (drainBudget burstM (pushAll [.user "B", .user "B", .user "B"] (started .sync burstM).st))
+    Term.drainCut burstM exB (drainFuel burstM (pushAll [.user "B", .user "B", .user "B"] (started .sync burstM).st)) 0
       (pushAll [.user "B", .user "B", .user "B"] (started .sync burstM).st)) =
     ([.user "B", .user "B", .user "B"], false) := by decide
-/-- … and a burst that IS cut: `A A A`, bound 2 — each `A` raises one `R`, three events enqueued while
-    draining, more than the bound: the budget 2 + 3 is exhausted after `A A A R R`; all three accepted events
-    were received, in order; what is discarded is the third `R`, enqueued during the drain
-    (`external_exactly_once_sync` (4), `sync_cut_discards_only_raised`) -/
-example : (drainLog burstM exB (drainBudget burstM (pushAll [.user "A", .user "A", .user "A"] (started .sync burstM).st))
+/-- … and a burst that IS cut: `A A A`, bound 2 — each `A` raises one `R`, three MARKED events enqueued while
+    draining, more than the bound: after `A A A R R` the third `R` is the third marked event dequeued, 3 > 2:
+    the cut. All three accepted events were received, in order; what is discarded is the third `R`, enqueued
+    during the drain (`external_exactly_once_sync`, `sync_cut_discards_only_raised`) -/
+example : (drainLog burstM exB (drainFuel burstM (pushAll [.user "A", .user "A", .user "A"] (started .sync burstM).st)) 0
       (pushAll [.user "A", .user "A", .user "A"] (started .sync burstM).st),
-    Term.drainCut burstM exB (drainBudget burstM (pushAll [.user "A", .user "A", .user "A"] (started .sync burstM).st))
+    Term.drainCut burstM exB (drainFuel burstM (pushAll [.user "A", .user "A", .user "A"] (started .sync burstM).st)) 0
       (pushAll [.user "A", .user "A", .user "A"] (started .sync burstM).st),
-    (drainRaised burstM exB (drainBudget burstM (pushAll [.user "A", .user "A", .user "A"] (started .sync burstM).st))
+    (drainRaised burstM exB (drainFuel burstM (pushAll [.user "A", .user "A", .user "A"] (started .sync burstM).st)) 0
       (pushAll [.user "A", .user "A", .user "A"] (started .sync burstM).st)).length) =
     ([.user "A", .user "A", .user "A", .user "R", .user "R"], true, 3) := by decide
 
@@ -571,24 +592,23 @@ example : tr0 (opSendMany .async roomyM exB [.user "A", .user "A", .user "B"] (s
     are not vacuous) — also of the former F10 run —, and they fail of the cut run / the breaker run above —
     that is exactly what `DrainClean` / `AsyncClean` say (a raised `R` is discarded / the raised `R`s are
     purged, so "everything raised is received" fails; the EXTERNAL events are all received nonetheless) -/
-example : DrainClean roomyM exB (drainBudget roomyM (pushAll [.user "A", .user "A", .user "B"] (started .sync roomyM).st))
+example : DrainClean roomyM exB (drainFuel roomyM (pushAll [.user "A", .user "A", .user "B"] (started .sync roomyM).st)) 0
     (pushAll [.user "A", .user "A", .user "B"] (started .sync roomyM).st) := by decide
-example : DrainClean burstM exB (drainBudget burstM (pushAll [.user "B", .user "B", .user "B"] (started .sync burstM).st))
+example : DrainClean burstM exB (drainFuel burstM (pushAll [.user "B", .user "B", .user "B"] (started .sync burstM).st)) 0
     (pushAll [.user "B", .user "B", .user "B"] (started .sync burstM).st) := by decide
 example : AsyncClean roomyM exB (asyncFuel roomyM)
     (pushAll [.user "A", .user "A", .user "B"] (started .async roomyM).st) := by decide
-example : ¬ DrainClean burstM exB (drainBudget burstM (pushAll [.user "A", .user "A", .user "A"] (started .sync burstM).st))
+example : ¬ DrainClean burstM exB (drainFuel burstM (pushAll [.user "A", .user "A", .user "A"] (started .sync burstM).st)) 0
     (pushAll [.user "A", .user "A", .user "A"] (started .sync burstM).st) := by decide
 example : ¬ AsyncClean burstM exB (asyncFuel burstM)
     (pushAll [.user "A", .user "A", .user "A", .user "B"] (started .async burstM).st) := by decide
-example : drainLog roomyM exB (drainBudget roomyM (pushAll [.user "A", .user "A", .user "B"] (started .sync roomyM).st))
+example : drainLog roomyM exB (drainFuel roomyM (pushAll [.user "A", .user "A", .user "B"] (started .sync roomyM).st)) 0
       (pushAll [.user "A", .user "A", .user "B"] (started .sync roomyM).st) =
     [.user "A", .user "A", .user "B", .user "R", .user "R"] := by decide
 
 /-- … and `send_events([A, B])` is NOT `send(A); send(B)`: the burst is queued as a whole, so the `R` that
     `A` raises waits behind `B`; sent one by one, `R` is handled before `B` is even accepted. (Unchanged by
-    the repair of F10: an ordering fact about ONE drain versus two; `roomyM` reaches no bound under either
-    budget — 10 before, 10 + 2 resp. 10 + 1 now.) -/
+    the repairs of F10: an ordering fact about ONE drain versus two; `roomyM` reaches no bound.) -/
 theorem sendMany_differs_from_sends :
     tr0 (opSendMany .sync roomyM exB [.user "A", .user "B"] (started .sync roomyM)) =
       ["#recv:A", "tA@A", "#t:m,m.a", "#recv:B", "tB@B", "#t:m,m.a", "#recv:R", "tR@R", "#t:m,m.a"] ∧
